@@ -126,6 +126,37 @@ def runHull (c : Case) : Res :=
         else
         let beyond := sides.filter (fun x => match x with | some (true, _) => true | _ => false)
         let onPlane := sides.any (fun x => match x with | some (_, true) => true | _ => false)
+        -- find_nearest_visible_facet: among the facets with the query strictly beyond them, the one
+        -- whose centroid is nearest (exact key |D·q − Σ v|²); compared when the minimum is unique by
+        -- a relative margin of 1e-9 (the implementation compares rounded distances)
+        if !onPlane then
+          for r in (c.recsOf "hn").filter (fun r => r.head? == some qid) do
+            let got : Option (List Nat) := match r.drop 1 with
+              | ["none"] => none
+              | ids => some (sortNat (parseIds ids))
+            let cand : List (List Nat × Q) := (binfo.zip sides).filterMap (fun ((cl, i, so, _), sd) =>
+              match so, sd with
+              | some sp, some (true, _) =>
+                let fpts := sp.eraseIdx i
+                let key := (List.range K.D).foldl (fun acc j =>
+                  let sumv := fpts.foldl (fun a p => a + Q.ofDy (p.getD j Dy.zero)) (Q.ofInt 0)
+                  let dlt := Q.ofInt (K.D : Int) * Q.ofDy (qd.getD j Dy.zero) - sumv
+                  acc + dlt * dlt) (Q.ofInt 0)
+                some (sortNat (cl.vs.eraseIdx i), key)
+              | _, _ => none)
+            match cand with
+            | [] => if got.isSome then bad := s!"query {qid}: find_nearest_visible_facet returned a facet although no facet is visible" :: bad
+            | c0 :: rest =>
+              let best := rest.foldl (fun b x => if Q.lt x.2 b.2 then x else b) c0
+              let margin : Q := best.2 * ⟨1, 10 ^ 9⟩
+              let clear := cand.all (fun x => x.1 == best.1 || Q.lt (best.2 + margin) x.2)
+              stats := (if clear then "hull.nearest.checked" else "hull.nearest.tie") :: stats
+              match got with
+              | none => bad := s!"query {qid}: find_nearest_visible_facet returned none although {cand.length} facet(s) are visible" :: bad
+              | some g =>
+                if !(cand.any (·.1 == g)) then bad := s!"query {qid}: find_nearest_visible_facet returned facet {g}, which is not visible from the point" :: bad
+                else if clear && g != best.1 then
+                  bad := s!"query {qid}: find_nearest_visible_facet returned facet {g}; the visible facet with the nearest centroid is {best.1} (exact keys {qShow best.2} vs {qShow ((cand.find? (·.1 == g)).map (·.2) |>.getD (Q.ofInt 0))})" :: bad
         for r in (c.recsOf "hr").filter (fun r => r.head? == some qid) do
           match r with
           | _ :: "outside" :: v :: "visible" :: vis =>
